@@ -11,6 +11,7 @@ pub mod c06;
 pub mod c07;
 pub mod c09;
 pub mod c10;
+pub mod c10_expiry;
 pub mod c11;
 pub mod c12;
 pub mod c13;
